@@ -68,6 +68,10 @@ type Dep struct {
 type Out struct {
 	T     string `json:"t"`
 	Conc  string `json:"conc,omitempty"`  // concrete pool type when T is an interface
+	// Alt / AltFrom: from invocation AltFrom on (1-based) the constructor yields concrete type Alt
+	// instead of Conc (an interface-typed service whose dynamic type varies between invocations)
+	Alt     string `json:"alt,omitempty"`
+	AltFrom int    `json:"alt_from,omitempty"`
 	Key   string `json:"key,omitempty"`   // result-object field tag
 	Group string `json:"group,omitempty"` // result-object field tag
 }
@@ -88,6 +92,9 @@ type Reg struct {
 	// Nested: identities this constructor resolves from its injected Scope while it
 	// runs (service-locator style), on its first invocation only.
 	Nested []Dep `json:"nested,omitempty"`
+	// NestedInChild: the nested resolutions are issued on a fresh child scope the constructor creates
+	// from its injected Scope / Provider (and closes again), e.g. a warm-up step.
+	NestedInChild bool `json:"nested_in_child,omitempty"`
 	// ChildAt: on this invocation (1-based; 0 = never) the constructor creates a child scope on its
 	// injected Scope while it runs, with a nil context (user code calling back into the container).
 	ChildAt int `json:"child_at,omitempty"`
@@ -452,6 +459,14 @@ func concOf(o Out) string {
 	return o.T
 }
 
+// concAt: the concrete type output o has at invocation serial.
+func concAt(o Out, serial int) string {
+	if o.Alt != "" && o.AltFrom > 0 && serial >= o.AltFrom {
+		return o.Alt
+	}
+	return concOf(o)
+}
+
 // FuncType returns the constructor signature a registration asks for.
 func FuncType(r *Reg) reflect.Type {
 	var ins, outs []reflect.Type
@@ -533,6 +548,13 @@ func (w *World) Body(r *Reg, ft reflect.Type) func(args []reflect.Value) []refle
 					w.via[tid] = "provider"
 				}
 				w.mu.Unlock()
+				var tmp godi.Scope
+				if r.NestedInChild {
+					if cs, err := sc.CreateScope(context.Background()); err == nil {
+						tmp = cs
+						sc = cs
+					}
+				}
 				for _, nd := range r.Nested {
 					var v any
 					var err error
@@ -546,6 +568,9 @@ func (w *World) Body(r *Reg, ft reflect.Type) func(args []reflect.Value) []refle
 					} else {
 						call.Nested = append(call.Nested, decodeArg(reflect.ValueOf(v), nd))
 					}
+				}
+				if tmp != nil {
+					_ = tmp.Close()
 				}
 				w.mu.Lock()
 				w.via[tid] = prevVia
@@ -604,10 +629,16 @@ func (w *World) Body(r *Reg, ft reflect.Type) func(args []reflect.Value) []refle
 			panic(pv)
 		}
 		defer w.mu.Unlock()
-		if fault == "err" && (r.Err || r.Kind == "voiderr") {
+		if (fault == "err" || fault == "err:disposed") && (r.Err || r.Kind == "voiderr") {
 			e := &InjErr{What: "ctor", Reg: r.ID, Serial: call.Serial}
 			w.InjErrs = append(w.InjErrs, e)
-			res[nout-1] = reflect.ValueOf(e).Convert(errType)
+			var ev error = e
+			if fault == "err:disposed" {
+				// the constructor's own error wraps the disposed sentinel of SOME OTHER scope (user code
+				// that used an expired long-lived scope): not a statement about the scope under construction
+				ev = fmt.Errorf("warm-up through an expired session: %w", errors.Join(e, godi.ErrScopeDisposed))
+			}
+			res[nout-1] = reflect.ValueOf(ev).Convert(errType)
 			finish("err")
 			return res
 		}
@@ -628,7 +659,7 @@ func (w *World) Body(r *Reg, ft reflect.Type) func(args []reflect.Value) []refle
 					if i == nilOut {
 						continue
 					}
-					in, val := w.newInst(r, call, i, concOf(o))
+					in, val := w.newInst(r, call, i, concAt(o, call.Serial))
 					call.Outs = append(call.Outs, in)
 					sv.Field(i + 1).Set(reflect.ValueOf(val))
 				}
@@ -638,7 +669,7 @@ func (w *World) Body(r *Reg, ft reflect.Type) func(args []reflect.Value) []refle
 					if i == nilOut {
 						continue // this output stays a typed nil
 					}
-					in, val := w.newInst(r, call, i, concOf(o))
+					in, val := w.newInst(r, call, i, concAt(o, call.Serial))
 					call.Outs = append(call.Outs, in)
 					v := reflect.New(ft.Out(i)).Elem()
 					v.Set(reflect.ValueOf(val))
